@@ -63,21 +63,26 @@ impl FileStack {
     fn add_files(&mut self, paths: &[PathBuf], reports: &mut ReportCollection) {
         for path in paths {
             if path.is_dir() {
-                // Handle directories on a best effort basis only.
+                // Handle directories on a best effort basis only. Only Circom
+                // files are picked up from a directory.
                 if let Ok(entries) = fs::read_dir(path) {
-                    let paths: Vec<_> = entries.flatten().map(|x| x.path()).collect();
+                    let paths: Vec<_> = entries
+                        .flatten()
+                        .map(|x| x.path())
+                        .filter(|path| {
+                            path.is_dir() || path.extension().map_or(false, |ext| ext == "circom")
+                        })
+                        .collect();
                     self.add_files(&paths, reports);
                 }
-            } else if let Some(extension) = path.extension() {
-                // Add Circom files to file stack.
-                if extension == "circom" {
-                    match fs::canonicalize(path) {
-                        Ok(path) => self.stack.push(path),
-                        Err(_) => {
-                            reports.push(
-                                FileOsError { path: path.display().to_string() }.into_report(),
-                            );
-                        }
+            } else {
+                // A file which is named explicitly is added to the file stack
+                // whatever its extension. If it cannot be found this is an error.
+                match fs::canonicalize(path) {
+                    Ok(path) => self.stack.push(path),
+                    Err(_) => {
+                        reports
+                            .push(FileOsError { path: path.display().to_string() }.into_report());
                     }
                 }
             }
